@@ -229,6 +229,12 @@ fn op_strings(op: &Op) -> (Vec<&str>, Vec<&str>) {
             if text.starts_with(['=', '+', '-', '@']) || matches!(op, Op::ArrayFormula { .. }) {
                 formulas.push(text);
             }
+            // typed URLs and e-mail addresses are linked automatically: the text becomes a link
+            // target (an attribute of the relationship part)
+            let t = text.trim().to_ascii_lowercase();
+            if !t.chars().any(char::is_whitespace) && (t.contains('@') || t.contains("://") || t.starts_with("www.") || t.starts_with("mailto:")) {
+                attrs.push(text);
+            }
         }
         Op::RenameSheet(_, n) => attrs.push(n),
         Op::NameNew { name, formula, .. } => {
